@@ -31,9 +31,8 @@ class ValueCase(pfbase.CfgCase):
                 text = pfbase.native_pformat(self.value, w, rw, indent=self.indent,
                                              sort_dict_keys=self.sort)
             else:
-                stream = pfbase.sdocs(self.value, w, rw, False, indent=self.indent,
-                                      sort_dict_keys=self.sort)
-                text = pfbase.stream_text(stream)
+                text = pfbase.ptext(self.value, w, rw, indent=self.indent,
+                                    sort_dict_keys=self.sort)
         except Exception as e:
             exc = type(e).__name__
             return self.fail('C01:pformat-raises-' + exc, lambda: '%s: %s' % (exc, e))
